@@ -2,6 +2,7 @@ import RpcVerif.Model.Proto
 import RpcVerif.Model.Wire
 import RpcVerif.Model.ConnRun
 import RpcVerif.Model.PoolRun
+import RpcVerif.Model.ServerRun
 /-
   rpcmodel — the executable side of the correspondence. Reads one operation per line on
   stdin, prints one canonical result line per operation. Imports Model/ only (core Lean).
@@ -92,4 +93,5 @@ def main (args : List String) : IO UInt32 := do
   | ["wire"] => loop stdin stdout wireStep; return 0
   | ["conn"] => loopSt stdin stdout RpcVerif.K.connStep none; return 0
   | ["pool"] => loopSt stdin stdout RpcVerif.P.poolStep none; return 0
+  | ["server"] => loopSt stdin stdout RpcVerif.S.serverStep none; return 0
   | _ => IO.eprintln "usage: rpcmodel wire"; return 2
